@@ -105,9 +105,9 @@ LEVEL_NOTE = ('Trusted: Coq kernel/vm_compute, tools/gen_data.py + tools/gens/c1
               'digits of a float literal are decided by CPython and opaque, code points beyond Latin-1 are outside the model str). Not rebuilt from the lost round-6 list: BioSeq.rc/BioBasket.rc with update_fts, FeatureList.slice and sequence slicing as modelled operations (their flag arithmetic is covered by C14_flags_closed, their LocationTuple step by C14_locationtuple_ordered_any). The byte comparison accepts a text that differs ONLY in the order of the entries of its objects (counted in the evidence: written_text_vs_gallina_printer; today all texts are byte-equal). Tested only (not proved): writes whose format comes from a multi-suffix file name (24 names x 4 entry points incl. BioSeq.write and pathlib.Path; names that are SJSON only up to case may be refused), '
               'the transports/encodings (strings beyond Latin-1 incl. astral characters and lone surrogates are exercised through every transport by a '
               'relational check without the model), float repr round trip, state independence (histories). Domain restrictions (see assumptions): '
-              "F20 key names; '_cls' inside plain dicts; lower-case residues, several strands in one feature and location tuples out of order (each now PROVED to be necessary, see the border theorems); tuples and non-str dict keys (proved to come back changed). Fixed findings: F21, reserved_meta_keys (056e094). PENDING FIX "
-              "failed_write_state (outside the quantifier, recorded in the evidence as pending_failed_write_state): after a write that failed because "
-              "the metadata was not JSON-representable, '_fmtcomment' stays in the basket's __dict__ and every later SJSON write raises TypeError. "
+              "F20 key names; '_cls' inside plain dicts; lower-case residues, several strands in one feature and location tuples out of order (each now PROVED to be necessary, see the border theorems); tuples and non-str dict keys (proved to come back changed). Fixed findings: F21, reserved_meta_keys (056e094), F54 failed_write_state (05ec4a0: after a write that failed because "
+              "the metadata was not JSON-representable '_fmtcomment' stayed in the basket's __dict__ and every later SJSON write raised TypeError; "
+              "'failed write -> repair -> write again' is now an ordinary step of the history stream and a corpus case). "
               'Statement coverage of the modelled functions (anchored_source_statement_coverage): everything reachable is executed in the quick tier; '
               'genuinely unreachable: sjson.py:28,30 (Strand/Defect branch of _SJSONEncoder.default -- json writes str/int subclasses natively, so '
               'default() never sees them) and sjson.py:56 (isinstance(cls, (Strand, Defect)) on a class object is always False); `def` lines run at '
@@ -937,6 +937,17 @@ def gen_cases(rng, tier):
 # The Gallina model is pure: the expected value of a step is the model applied to the graph current at that step.
 import copy as _copy
 
+BADKEY = 'unrepresentable'
+
+
+def failw_stmts(var, st):
+    tgt = '%s.meta' % var if st['where'] == 'basket' else '%s[%d].meta' % (var, st['where'])
+    wr = '%s.tofmtstr("sjson")' % var if st['via'] == 'str' else '%s.write(_tmpname, fmt="sjson")' % var
+    return ['%s[%r] = {1, 2}' % (tgt, BADKEY),
+            'try:\n    %s\n    raise AssertionError("metadata that is not JSON-representable was written")\nexcept TypeError:\n    pass' % wr,
+            'del %s[%r]' % (tgt, BADKEY)]
+
+
 EDITS = ('data', 'meta', 'delmeta', 'bmeta', 'ftmeta', 'strand', 'defect', 'locmeta', 'reverse', 'pop', 'append')
 
 
@@ -1123,6 +1134,11 @@ def trace(case):
             g = st['b']
             check_shape(g, 'BioBasket')
             out.append(('echo', g))
+        elif op == 'failw':
+            # a write that FAILS (metadata that is not JSON-representable), then the repair: the object is the graph again (F54)
+            assert st['via'] in ('str', 'file') and (st['where'] == 'basket' or (type(st['where']) is int and 0 <= st['where'] < len(g[1])))
+            assert not any(p[0] == BADKEY for p in (g[2] if st['where'] == 'basket' else g[1][st['where']][3])[1:])
+            out.append(('echo', g))
         else:
             raise AssertionError('bad step %r' % (op,))
     return out
@@ -1171,6 +1187,15 @@ def impl_history(case):
             g = st['b']
             env['b'] = _mk(g, share, env)
             out.append(snap(env['b']))
+        elif op == 'failw':
+            fd, env['_tmpname'] = tempfile.mkstemp(prefix='C14-', suffix='.sjson', dir='/tmp')
+            os.close(fd)
+            try:
+                for stmt in failw_stmts('b', st):
+                    exec(stmt, env)
+            finally:
+                os.remove(env['_tmpname'])
+            out.append(snap(env['b']))
     return out
 
 
@@ -1198,6 +1223,8 @@ def history_snippet(case):
         elif op == 'new':
             g = st['b']
             lines += ['b = %s' % src(g), 'show(b)']
+        elif op == 'failw':
+            lines += ['_tmpname = os.path.join(tempfile.mkdtemp(), "x.sjson")'] + failw_stmts('b', st) + ['show(b)']
     return '\n'.join(lines) + '\n'
 
 
@@ -1332,12 +1359,15 @@ def g_history(rng):
             steps.append({'op': 'm', 'r': k, 'ed': ed})
         elif r < 0.84:
             steps.append({'op': 'rr', 'r': rng.randrange(nw)})
-        elif r < 0.92:
+        elif r < 0.89:
             steps.append({'op': 'fresh', 'via': rng.choice(VIAS)})
+        elif r < 0.95:
+            steps.append({'op': 'failw', 'via': rng.choice(['str', 'file']),
+                          'where': 'basket' if not cur[1] or rng.random() < 0.5 else rng.randrange(len(cur[1]))})
         elif share is None:
             cur = g_collide(rng, cur)
             steps.append({'op': 'new', 'b': cur})
-    if steps[-1]['op'] in ('e', 'm', 'new'):
+    if steps[-1]['op'] in ('e', 'm', 'new', 'failw'):
         steps.append({'op': 'w', 'via': rng.choice(VIAS)})
     return case
 
@@ -1687,6 +1717,9 @@ def check_pshape(v):
         for x in v[1:]:
             check_pshape(x)
     else:
+        # the keys of one dict must be different Python keys (0 == False == 0.0, 1 == True == 1.0 are ONE key of a Python dict)
+        pk = [_pykey(p[0]) for p in v[1:]]
+        assert len(dict.fromkeys(pk)) == len(pk), 'not a Python dict: equal keys'
         for p in v[1:]:
             assert isinstance(p, list) and len(p) == 2
             k = p[0]
@@ -1698,6 +1731,13 @@ def check_pshape(v):
             if isinstance(k, list) and k[0] == 'kf':
                 float(k[1])
             check_pshape(p[1])
+
+
+def _pykey(k):
+    if isinstance(k, str):
+        return k
+    assert isinstance(k, list) and k
+    return {'ki': lambda: k[1], 'kb': lambda: k[1], 'kn': lambda: None, 'kf': lambda: float(k[1]), 'ko': lambda: (1, 2)}[k[0]]()
 
 
 def _kterm(k):
@@ -1861,8 +1901,8 @@ def g_native_case(rng):
         if _pkeys_unique_after(v) and (1 == 1.0):
             # Python dict: True == 1 == 1.0 are one key; keep the keys of one dict distinct as Python keys
             try:
-                if _psnap(eval(psrc(v), {})) == v or 'nan' in json.dumps(v):
-                    return {'kind': 'native', 'v': v}
+                check_pshape(v)                      # in particular: the keys of every dict are different Python keys
+                return {'kind': 'native', 'v': v}
             except Exception:
                 pass
 
@@ -2124,25 +2164,6 @@ def extra_checks(rng, tier, cov):
                 yield {'case': {'kind': 'unicode', 'via': via, 'strings': [ascii(u), ascii(v)]}, 'impl': s1, 'noshrink': True,
                        'spec': 'non-ASCII metadata %s/%s through transport %r: %s' % (ascii(u), ascii(v), via, str(d)[:300])}
     cov['unicode_transport_checks'] = nu
-    # (4) error path, PENDING FIX failed_write_state: a write that fails (metadata that is not JSON-representable) leaves
-    #     `_fmtcomment` in the basket's __dict__, so every later SJSON write of the repaired basket raises TypeError.
-    #     Recorded in the evidence, not a violation (outside the property's quantifier: the first write is not of a representable basket).
-    try:
-        b = BioBasket([BioSeq('ACGT', id='x')], meta={'bad': {1, 2}})
-        s0 = snap(b)
-        try:
-            b.tofmtstr('sjson')
-            st = 'first write did not fail'
-        except TypeError:
-            del b.meta['bad']
-            try:
-                ok = _diff(canon(snap(roundtrip(b, 'str'))), canon(snap(b))) is None
-                st = 'fixed' if ok else 'second write differs'
-            except TypeError:
-                st = 'reproduced'
-        cov['pending_failed_write_state'] = st
-    except Exception as e:                                            # pragma: no cover
-        cov['pending_failed_write_state'] = 'error %s' % type(e).__name__
     # (5) the format comes from the FILE NAME (no fmt=): multi-suffix names x several entry points, read back with the format detected
     #     from the content.  Names that are SJSON only up to case may be refused by the writer (ValueError/OSError) or must round-trip.
     import pathlib
